@@ -314,11 +314,18 @@ def r141(ctx, rep, f, ev, cg, reach):
 
     # --- the counters themselves
     for m, fld, var in (("rdh_seen", "rdhs_seen", "RDHSeen"), ("rdh_filtered", "rdhs_filtered", "RDHFiltered")):
-        recs = _recs(ev, ST + m, [Sym("self")], follow=lambda c: c.startswith(ST))
-        asg = [(o["assign"], tuple(o["guard"])) for o in recs if "assign" in o]
-        snd = [(o["args"][1], tuple(o["guard"])) for o in recs if "call" in o and o["call"].endswith("::send")]
+        # (helpers of the module followed; the test "== MAX" is made on the incremented counter, read back from the
+        # field or from the `&mut` reference a helper incremented)
+        recs = _recs(ev, ST + m, [Sym("self")], follow=lambda c: c.startswith(ST.rsplit("::", 2)[0] + "::"))
+        norm_g = lambda gs: tuple("Eq(sym(self.%s),0xffffffff)" % fld if x == "Eq(sym(mut(sym(self.%s);AddAssign0x1)),0xffffffff)" % fld else x for x in gs)
+        asg = [(o["assign"][:3], norm_g(o["guard"])) for o in recs if "assign" in o]
+        snd = [(o["args"][1], norm_g(o["guard"])) for o in recs if "call" in o and o["call"].endswith("::send")]
         g = ("Eq(sym(self.%s),0xffffffff)" % fld,)
         ok = asg == [(("AddAssign", "sym(self.%s)" % fld, "0x1"), ()), (("=", "sym(self.%s)" % fld, "0x0"), g)] and snd == [("InputStatType::%s(0=0xffffffff)" % var, g)]
+        # the increment made through a `&mut` helper inside the test itself: the tested value is `counter after += 1`
+        raw_g = {x for o in recs for x in o.get("guard", ())}
+        ok = ok or (asg == [(("=", "sym(self.%s)" % fld, "0x0"), g)] and snd == [("InputStatType::%s(0=0xffffffff)" % var, g)]
+                    and raw_g == {"Eq(sym(mut(sym(self.%s);AddAssign0x1)),0xffffffff)" % fld})
         rep.check(ok, "R14.1", "R14.1|counter|%s" % m, "%s: +1; at u32::MAX the full count is sent and the counter restarts (no loss)" % m, WST,
                   "%s: assignments %s sends %s" % (m, asg, snd))
     # growth by more than one must not rely on an equality guard (contradiction pattern; F11)
@@ -365,6 +372,11 @@ def r141(ctx, rep, f, ev, cg, reach):
               "add_payload_size: checked_add%s; events per outcome %s, expected %s" % (sorted(set(seen_args)), got, want))
     recs = _recs(ev, ST + "flush_stats", [Sym("self")], follow=lambda c: c.startswith(ST))
     snd = sorted(o["args"][1] for o in recs if "call" in o and o["call"].endswith("::send") and not o["guard"])
+    if not snd:
+        # `for stat in [A, B, C] { send(stat) }`: one send inside a loop over an array literal — the elements are what is sent
+        loop_snd = [o["args"][1] for o in recs if "call" in o and o["call"].endswith("::send") and "('array'," in o["args"][1] and "Iterator>::next(" in o["args"][1]]
+        if len(loop_snd) == 1:
+            snd = sorted(re.findall(r"InputStatType::\w+\(0=sym\(self\.\w+\)\)", loop_snd[0]))
     exp = sorted(["InputStatType::RDHSeen(0=sym(self.rdhs_seen))", "InputStatType::RDHFiltered(0=sym(self.rdhs_filtered))", "InputStatType::PayloadSize(0=sym(self.payload_size_seen))"])
     rep.check(snd == exp, "R14.1", "R14.1|flush|content", "flush_stats sends the three counters under their own variant", WST, "flush_stats sends %s" % snd)
     # try_add_*: decided per outcome of the membership test (guard form is free: if !contains {..} or early return)
